@@ -212,13 +212,27 @@ def _contains_node(tree, node):
     return any(n is node for n in ast.walk(tree))
 
 
+UNIT_SYMBOLS = ("y", "xB")  # 0 < y < 1, 0 < x < 1 on the analysed (accepted) path
+
+
 def make_compare(assume_valid_kin=True):
     def on_compare(op, a, b, node):
         """The analysed path is the one on which symbolic kinematics pass the rejection guards
         (the guards themselves are decided on concrete orderings by C16.kin)."""
         if not assume_valid_kin or node is None:
             return None
-        return guard_not_triggered(node)
+        g = guard_not_triggered(node)
+        if g is not None:
+            return g
+        # outside rejection guards: a comparison whose difference has an evident sign on the physical domain
+        # (positive symbols, 0 < x, y < 1) is decided; anything else stays undecided
+        try:
+            sg = A.definite_sign(A.to_rat(a) - A.to_rat(b), unit=UNIT_SYMBOLS)
+        except (A.Undecided, TypeError, ValueError, ZeroDivisionError):
+            return None
+        if sg is None:
+            return None
+        return {"Lt": sg < 0, "LtE": sg <= 0, "Gt": sg > 0, "GtE": sg >= 0, "Eq": sg == 0, "NotEq": sg != 0}.get(type(op).__name__)
 
     return on_compare
 
